@@ -21,8 +21,10 @@ func docAuthentic(w *collateralWorld, d *doc, tNow interface{ Unix() int64 }) (s
 	return
 }
 
-func h03(nTrusted, k, m int) {
-	w := mkCollateralWorld(nTrusted, k, m, 1, 0, 0)
+func h03(nTrusted, k, m int) { h03o(nTrusted, k, m, false) }
+
+func h03o(nTrusted, k, m int, omissions bool) {
+	w := mkCollateralWorldOpt(nTrusted, k, m, 1, 0, 0, omissions)
 	quote := mkQuote(w.pki, 32)
 	now := symTimeSet("t")
 	opts := &Options{GetCollateral: true, Getter: w.getter, TrustedRoots: w.pool, Now: now}
@@ -52,7 +54,7 @@ func h03(nTrusted, k, m int) {
 		return
 	}
 	// the values that drive the verdict are those of the signed members
-	w4 := world04{body: quote.TdQuoteBody, ext: w.exts, info: *w.signedTcb, k: k, m: m, l: 1}
+	w4 := world04{body: quote.TdQuoteBody, ext: w.exts, info: *w.signedTcb, k: k, m: len(w.signedTcb.TdxModuleIdentities), l: 1}
 	accept4, _, _, _ := w4.spec04(16)
 	vp.Assert("verdict-follows-the-signed-tcbinfo", vp.Implies(ok, accept4))
 	report := quote.SignedData.CertificationData.QeReportCertificationData.QeReport
@@ -63,6 +65,9 @@ func h03(nTrusted, k, m int) {
 func H03a_embedded_k1()  { h03(0, 1, 0) }
 func H03b_pool1_k1_m1()  { h03(1, 1, 1) }
 func H03c_k0()           { h03(0, 0, 0) }
+
+// H03f: signed documents that do not mention every member (absent members are zero values, never left-overs).
+func H03f_SignedMemberOmitsFields() { h03o(0, 1, 1, true) }
 func T03d_pool2_k2_m1()  { h03(2, 2, 1) }
 
 // H03e: malformed issuer-chain headers and bodies are rejected.
